@@ -126,6 +126,27 @@ def run(chk):
                         replay={'harness': 'h_sf', 'line': cmd + '\t' + args})
     for (line, kind, err) in res['crashes']:
         chk.violate('crash', 'h_sf %s on %s' % (kind, line[:200]), err, replay={'harness': 'h_sf', 'line': line})
+    if not quick:
+        # data-race detection on the purity oracle (ThreadSanitizer build of the same harness)
+        try:
+            ht = vlib.build_exe('h_sf_tsan', [vlib.ROOT + '/harness/h_sf.cpp'], flags=['-O1', '-g', '-fsanitize=thread'])
+            pure = [l for l in lines if l.startswith('o_pure')]
+            rc, out, err = vlib.run_lines(ht, [], inp=('\n'.join(pure) + '\n').encode(), timeout=1200,
+                                          env={'TSAN_OPTIONS': 'halt_on_error=0 exitcode=66'})
+            if 'unexpected memory mapping' in err or ('FATAL' in err and 'ThreadSanitizer' in err and not out):
+                chk.extra['tsan'] = 'ThreadSanitizer could not start in this environment: ' + err[-200:]
+            else:
+                chk.extra['tsan'] = '%d o_pure lines under ThreadSanitizer, rc=%d' % (len(out), rc)
+                if 'WARNING: ThreadSanitizer' in err or rc != 0:
+                    chk.violate('oracle', 'C17 data race reported by ThreadSanitizer in cromer_liberman_for_array', err[-3000:],
+                                replay={'harness': 'h_sf_tsan', 'line': pure[0]})
+                for l in out:
+                    p = l.split('\t')
+                    if len(p) == 3 and p[2] != '1':
+                        chk.violate('oracle', 'C17 (tsan build) o_pure %s: %s' % (p[1][:100], p[2][:200]), p[2],
+                                    replay={'harness': 'h_sf_tsan', 'line': l})
+        except RuntimeError as ex:
+            chk.extra['tsan'] = 'ThreadSanitizer build failed: ' + str(ex)[-300:]
     chk.rule = ("Z = 1..100 (and out-of-range ints): arrays of 0-64 random energies in 1-80 keV (plus exact edge energies) evaluated as "
                 "array / scalar / permuted / from 1-16 threads, bit-exact; per element a dense log grid 1-80 keV, brackets of every "
                 "tabulated edge and the energies where a sigma denominator vanishes (computed from the table); f'' compared with the "
